@@ -1,38 +1,133 @@
 (* C05 — proofs about Model/C05_frame.v. *)
 From Coq Require Import List Arith Bool Lia.
-From PV Require Import Lib.ObjGraph Model.C06_deepcopy Proofs.C06_deepcopy Model.C05_frame.
+From PV Require Import Lib.ObjGraph Model.C06_deepcopy Proofs.C06_deepcopy Proofs.C06_reach Model.C05_frame.
 Import ListNotations.
 
-Lemma nth_set_nth_same {A} (x : A) : forall l i, i < length l -> nth_error (set_nth i x l) i = Some x.
+(* ---------- the three exact writes change no observation ---------- *)
+Definition memo_sound (t : tree) (xm : xmap) : Prop :=
+  forall p k q, kassoc k (memo (xget xm p)) = Some q -> star_search t (stars (xget xm p)) k None = Some q.
+
+Lemma star_search_exists t : forall pkgs k acc q,
+  star_search t pkgs k acc = Some q -> acc = Some q \/ exists_cls t q = true.
 Proof.
-  induction l as [|y l IH]; intros [|i] H; simpl in *; try lia; auto. apply IH. lia.
+  induction pkgs as [|pk pkgs IH]; cbn [star_search]; intros k acc q H; [left; exact H|].
+  apply IH in H. destruct H as [H|H]; [|right; exact H].
+  destruct (exists_cls t (pk ++ [k])) eqn:E; [|left; exact H].
+  injection H as <-. right. exact E.
+Qed.
+
+(* the search without any memo *)
+Fixpoint find0 (t : tree) (st : path -> list path) (rp : list key) (k : key) : option path :=
+  let p := rev rp in
+  if exists_cls t (p ++ [k]) then Some (p ++ [k])
+  else
+    let up := match rp with [] => None | _ :: rp' => find0 t st rp' k end in
+    match star_search t (st p) k None with Some q => Some q | None => up end.
+
+(* the memo only caches what the un-memoised search returns (induction on the climb) *)
+Lemma find_memo_eq t xm : memo_sound t xm ->
+  forall rp k, find t xm rp k = find0 t (fun p => stars (xget xm p)) rp k.
+Proof.
+  intros Hs. induction rp as [|x rp IH]; intros k; cbn [find find0].
+  - destruct (exists_cls t (rev [] ++ [k])); [reflexivity|].
+    destruct (kassoc k (memo (xget xm (rev [])))) as [q|] eqn:M; [|reflexivity].
+    pose proof (Hs _ _ _ M) as S. rewrite S.
+    destruct (star_search_exists _ _ _ _ _ S) as [E|E]; [discriminate|]. rewrite E. reflexivity.
+  - destruct (exists_cls t (rev (x :: rp) ++ [k])); [reflexivity|].
+    destruct (kassoc k (memo (xget xm (rev (x :: rp))))) as [q|] eqn:M.
+    + pose proof (Hs _ _ _ M) as S. rewrite S.
+      destruct (star_search_exists _ _ _ _ _ S) as [E|E]; [discriminate|]. rewrite E. reflexivity.
+    + rewrite IH. reflexivity.
+Qed.
+
+Lemma find0_ext t st1 st2 : (forall p, st1 p = st2 p) -> forall rp k, find0 t st1 rp k = find0 t st2 rp k.
+Proof.
+  intros H. induction rp as [|x rp IH]; intros k; cbn [find0]; rewrite H; [reflexivity|].
+  rewrite IH. reflexivity.
+Qed.
+
+Lemma xget_xset_same xm p e : xget (xset xm p e) p = e.
+Proof. unfold xget, xset. cbn [assoc]. destruct (path_dec p p) as [_|N]; [reflexivity|exfalso; apply N; reflexivity]. Qed.
+
+Lemma xget_xset_other xm p q e : q <> p -> xget (xset xm p e) q = xget xm q.
+Proof. intros N. unfold xget, xset. cbn [assoc]. destruct (path_dec q p) as [E|_]; [exfalso; auto|reflexivity]. Qed.
+
+Lemma nstep_obs t xm xm' : nstep t xm xm' -> memo_sound t xm ->
+  memo_sound t xm' /\ (forall p, stars (xget xm' p) = stars (xget xm p)) /\
+  (forall p s, const_eff xm' p s = const_eff xm p s).
+Proof.
+  intros H Hs. destruct H as [xm p k q S|xm p s c nm C|xm p].
+  - split; [|split].
+    + intros p' k' q' M. destruct (path_dec p' p) as [->|N].
+      * rewrite xget_xset_same in *. cbn [memo stars kassoc] in *.
+        destruct (Nat.eqb k' k) eqn:E; [apply Nat.eqb_eq in E; subst; injection M as <-; exact S|auto].
+      * rewrite xget_xset_other in * by auto. auto.
+    + intros p'. destruct (path_dec p' p) as [->|N]; [rewrite xget_xset_same|rewrite xget_xset_other by auto]; reflexivity.
+    + intros p' s. unfold const_eff. destruct (path_dec p' p) as [->|N];
+        [rewrite xget_xset_same|rewrite xget_xset_other by auto]; reflexivity.
+  - split; [|split].
+    + intros p' k' q' M. destruct (path_dec p' p) as [->|N].
+      * rewrite xget_xset_same in *. cbn [memo stars] in *. auto.
+      * rewrite xget_xset_other in * by auto. auto.
+    + intros p'. destruct (path_dec p' p) as [->|N]; [rewrite xget_xset_same|rewrite xget_xset_other by auto]; reflexivity.
+    + intros p' s'. unfold const_eff. destruct (path_dec p' p) as [->|N]; [|rewrite xget_xset_other by auto; reflexivity].
+      rewrite xget_xset_same. cbn [consts kassoc].
+      destruct (Nat.eqb s' s) eqn:E; [|reflexivity].
+      apply Nat.eqb_eq in E. subst s'. rewrite C. reflexivity.
+  - split; [|split].
+    + intros p' k' q' M. destruct (path_dec p' p) as [->|N].
+      * rewrite xget_xset_same in *. cbn [memo stars] in *. auto.
+      * rewrite xget_xset_other in * by auto. auto.
+    + intros p'. destruct (path_dec p' p) as [->|N]; [rewrite xget_xset_same|rewrite xget_xset_other by auto]; reflexivity.
+    + intros p' s. unfold const_eff. destruct (path_dec p' p) as [->|N];
+        [rewrite xget_xset_same|rewrite xget_xset_other by auto]; reflexivity.
+Qed.
+
+Lemma nstar_obs t xm xm' : nstar t xm xm' -> memo_sound t xm ->
+  memo_sound t xm' /\ (forall p, stars (xget xm' p) = stars (xget xm p)) /\
+  (forall p s, const_eff xm' p s = const_eff xm p s).
+Proof.
+  induction 1 as [xm|xm1 xm2 xm3 H1 H2 IH]; intros Hs; [auto|].
+  destruct (nstep_obs _ _ _ H1 Hs) as (Hs2 & St2 & C2).
+  destruct (IH Hs2) as (Hs3 & St3 & C3). split; [exact Hs3|]. split.
+  - intros p. rewrite St3. apply St2.
+  - intros p s. rewrite C3. apply C2.
+Qed.
+
+Lemma nstar_trans t a b c : nstar t a b -> nstar t b c -> nstar t a c.
+Proof. induction 1; auto. intros. econstructor; eauto. Qed.
+
+(* formerly the premise res_neutral: no request can tell the difference *)
+Lemma exec_neutral {R} t xm xm' : memo_sound t xm -> nstar t xm xm' ->
+  forall pr : prog R, exec pr t xm' = exec pr t xm.
+Proof.
+  intros Hs Hn. destruct (nstar_obs _ _ _ Hn Hs) as (Hs' & St & Ce).
+  induction pr as [r|rp k c IH|p s c IH|p c IH]; cbn [exec]; auto.
+  - rewrite IH. f_equal. f_equal.
+    rewrite (find_memo_eq _ _ Hs'), (find_memo_eq _ _ Hs). apply find0_ext. exact St.
+  - rewrite IH, Ce. reflexivity.
 Qed.
 
 Section Frame.
   Variable R : Type.
-  (* what flattening class p yields (flat class in string form, or the exception class), as a
-     function of the parsed tree *)
-  Variable res : tree -> path -> R.
-  (* the exact writes that reach the parsed tree even with copy-on-lookup *)
-  Variable neutral : tree -> tree -> Prop.
-  Hypothesis neutral_trans : forall a b c, neutral a b -> neutral b c -> neutral a c.
-  (* PREMISE (validated by the sequence oracle, not proved): those writes do not change any result *)
-  Hypothesis res_neutral : forall t t' p, neutral t t' -> res t' p = res t p.
+  (* the program flatten/generate runs for class p: ARBITRARY (no hypothesis) *)
+  Variable prog_of : path -> prog R.
 
-  (* one request: the result is a function of the parsed tree as it is NOW; afterwards the
-     world has changed within the footprint of the looked-up class, plus neutral writes to tree 0 *)
-  Definition fstep (cp : bool) (w : world) (p : path) (w' : world) (r : R) : Prop :=
-    exists t0, nth_error w 0 = Some t0 /\ r = res t0 p /\
-      match lookup cp w p with
-      | None => w' = w
-      | Some (w1, a) => exists w2 t2 t0',
-          footprint w1 a w2 /\ nth_error w2 0 = Some t2 /\ neutral t2 t0' /\ w' = set_nth 0 t0' w2
+  Definition state : Type := world * xmap.
+
+  (* one request on the state (live trees, neutral fields of the parsed tree) *)
+  Definition fstep (cp : bool) (st : state) (p : path) (st' : state) (r : R) : Prop :=
+    exists t0, nth_error (fst st) 0 = Some t0 /\ r = exec (prog_of p) t0 (snd st) /\
+      nstar t0 (snd st) (snd st') /\
+      match lookup cp (fst st) p with
+      | None => fst st' = fst st
+      | Some (w1, a) => footprint w1 a (fst st')
       end.
 
-  Inductive fseq (cp : bool) : world -> list path -> world -> list R -> Prop :=
-  | fseq_nil w : fseq cp w [] w []
-  | fseq_cons w p w1 r ps w2 rs :
-      fstep cp w p w1 r -> fseq cp w1 ps w2 rs -> fseq cp w (p :: ps) w2 (r :: rs).
+  Inductive fseq (cp : bool) : state -> list path -> state -> list R -> Prop :=
+  | fseq_nil st : fseq cp st [] st []
+  | fseq_cons st p st1 r ps st2 rs :
+      fstep cp st p st1 r -> fseq cp st1 ps st2 rs -> fseq cp st (p :: ps) st2 (r :: rs).
 
   Lemma lookup_true_shape w p w1 a :
     lookup true w p = Some (w1, a) -> (exists c, w1 = w ++ [c]) /\ a = (length w, []).
@@ -42,35 +137,35 @@ Section Frame.
     intros H. injection H as <- <-. split; auto. eapply deepcopy_frame; eauto.
   Qed.
 
-  (* frame: with copy-on-lookup a request leaves the parsed tree as it was, up to neutral writes *)
-  Lemma frame w p w' r t0 :
-    nth_error w 0 = Some t0 -> neutral t0 t0 -> fstep true w p w' r ->
-    r = res t0 p /\ exists t0', nth_error w' 0 = Some t0' /\ neutral t0 t0'.
+  (* frame: with copy-on-lookup a request leaves the parsed tree EXACTLY as it was; only the
+     neutral fields move, by the three exact writes *)
+  Lemma frame st p st' r t0 :
+    nth_error (fst st) 0 = Some t0 -> fstep true st p st' r ->
+    r = exec (prog_of p) t0 (snd st) /\ nth_error (fst st') 0 = Some t0 /\ nstar t0 (snd st) (snd st').
   Proof.
-    intros Ht Hrefl (t & Ht' & Hr & H). rewrite Ht in Ht'. injection Ht' as <-.
-    split; auto.
+    destruct st as [w xm], st' as [w' xm']. unfold fstep. cbn [fst snd].
+    intros Ht (t & Ht' & Hr & Hn & H). pose proof (eq_trans (eq_sym Ht') Ht) as Et. injection Et as ->.
+    split; auto. split; auto.
     destruct (lookup true w p) as [[w1 a]|] eqn:L.
     - destruct (lookup_true_shape _ _ _ _ L) as ((c & ->) & ->).
-      destruct H as (w2 & t2 & t0' & (Hlen & Hfp) & Ht2 & Hn & ->).
+      unfold footprint in H. destruct H as (Hlen & Hfp).
       assert (Hl : 0 < length w) by (apply nth_error_Some; congruence).
       assert (H0 : nth_error (w ++ [c]) 0 = Some t0) by (rewrite nth_error_app1; auto).
       destruct (Hfp _ _ H0) as (t2' & Ht2' & Hsame & _).
-      rewrite Ht2 in Ht2'. injection Ht2' as <-.
-      cbn [fst] in Hsame. rewrite Hsame in Hn by lia.
-      exists t0'. split; auto. apply nth_set_nth_same.
-      rewrite app_length in Hlen. cbn in Hlen. lia.
-    - subst w'. exists t0. auto.
+      cbn [fst] in Hsame. rewrite Hsame in Ht2' by lia. exact Ht2'.
+    - rewrite H. exact Ht.
   Qed.
 
-  (* sequences: every request of any sequence gives what it gives on the initial parsed tree *)
-  Lemma sequences_gen : forall ps w w' rs, fseq true w ps w' rs ->
-    forall t0 t, (forall x, neutral x x) -> nth_error w 0 = Some t -> neutral t0 t -> rs = map (res t0) ps.
+  (* sequences: every request of any sequence gives what it gives on the initial state *)
+  Lemma sequences_gen : forall ps st st' rs, fseq true st ps st' rs ->
+    forall t0 xm0, nth_error (fst st) 0 = Some t0 -> memo_sound t0 xm0 -> nstar t0 xm0 (snd st) ->
+    rs = map (fun p => exec (prog_of p) t0 xm0) ps.
   Proof.
-    induction 1 as [w|w p w1 r ps w2 rs Hstep Hseq IH]; intros t0 t Hrefl Ht Hn; [reflexivity|].
-    destruct (frame _ _ _ _ _ Ht (Hrefl t) Hstep) as (-> & t' & Ht' & Hn').
+    induction 1 as [st|st p st1 r ps st2 rs Hstep Hseq IH]; intros t0 xm0 Ht Hs Hn; [reflexivity|].
+    destruct (frame _ _ _ _ _ Ht Hstep) as (-> & Ht' & Hn').
     cbn [map]. f_equal.
-    - apply res_neutral. exact Hn.
-    - eapply IH; eauto.
+    - apply exec_neutral; auto.
+    - eapply IH; eauto. eapply nstar_trans; eauto.
   Qed.
 End Frame.
 
@@ -79,7 +174,7 @@ Definition ex5_tree : tree :=
   [ ([], Info (CD [] 0) None None); ([1], Info (CD [4] 1) (Some (0, [])) None) ].
 Definition ex5_tree' : tree :=
   [ ([], Info (CD [] 0) None None); ([1], Info (CD [] 1) (Some (0, [])) None) ].
-Definition ex5_res (t : tree) (p : path) : option cdata := option_map dat (assoc p t).
+Definition ex5_prog (p : path) : prog (option cdata) := AskData p Ret.
 
 Lemma ex5_footprint : footprint [ex5_tree] (0, [1]) [ex5_tree'].
 Proof.
@@ -92,19 +187,18 @@ Proof.
 Qed.
 
 Lemma refuted_no_copy :
-  exists w w1 w2 p r1 r2,
-    fseq (option cdata) ex5_res eq false w [p; p] w2 [r1; r2] /\
-    fstep (option cdata) ex5_res eq false w p w1 r1 /\ r1 <> r2.
+  exists st st1 st2 p r1 r2,
+    fseq (option cdata) ex5_prog false st [p; p] st2 [r1; r2] /\
+    fstep (option cdata) ex5_prog false st p st1 r1 /\ r1 <> r2.
 Proof.
-  exists [ex5_tree], [ex5_tree'], [ex5_tree'], [1], (Some (CD [4] 1)), (Some (CD [] 1)).
-  assert (S1 : fstep (option cdata) ex5_res eq false [ex5_tree] [1] [ex5_tree'] (Some (CD [4] 1))).
-  { exists ex5_tree. split; [reflexivity|]. split; [reflexivity|].
-    change (lookup false [ex5_tree] [1]) with (Some ([ex5_tree], (0, [1]))).
-    exists [ex5_tree'], ex5_tree', ex5_tree'. split; [apply ex5_footprint|repeat split; reflexivity]. }
-  assert (S2 : fstep (option cdata) ex5_res eq false [ex5_tree'] [1] [ex5_tree'] (Some (CD [] 1))).
-  { exists ex5_tree'. split; [reflexivity|]. split; [reflexivity|].
-    change (lookup false [ex5_tree'] [1]) with (Some ([ex5_tree'], (0, [1]))).
-    exists [ex5_tree'], ex5_tree', ex5_tree'. split; [|repeat split; reflexivity].
+  exists ([ex5_tree], []), ([ex5_tree'], []), ([ex5_tree'], []), [1], (Some (CD [4] 1)), (Some (CD [] 1)).
+  assert (S1 : fstep (option cdata) ex5_prog false ([ex5_tree], []) [1] ([ex5_tree'], []) (Some (CD [4] 1))).
+  { exists ex5_tree. split; [reflexivity|]. split; [reflexivity|]. split; [apply nstar_refl|].
+    change (lookup false (fst ([ex5_tree], @nil (path * ext))) [1]) with (Some ([ex5_tree], (0, [1]))).
+    apply ex5_footprint. }
+  assert (S2 : fstep (option cdata) ex5_prog false ([ex5_tree'], []) [1] ([ex5_tree'], []) (Some (CD [] 1))).
+  { exists ex5_tree'. split; [reflexivity|]. split; [reflexivity|]. split; [apply nstar_refl|].
+    change (lookup false (fst ([ex5_tree'], @nil (path * ext))) [1]) with (Some ([ex5_tree'], (0, [1]))).
     split; [apply le_n|]. intros ti t1 H. exists t1. repeat split; auto. }
   split; [|split; [exact S1|intros H; discriminate H]].
   eapply fseq_cons; [exact S1|]. eapply fseq_cons; [exact S2|]. apply fseq_nil.
@@ -118,3 +212,7 @@ Proof.
   intros H G. unfold lookup. destruct (get w (0, p)); [|congruence].
   rewrite (deepcopy_spec _ _ _ _ H). reflexivity.
 Qed.
+
+(* a fresh parse has empty memos *)
+Lemma fresh_sound t xm : (forall p, memo (xget xm p) = []) -> memo_sound t xm.
+Proof. intros H p k q M. rewrite H in M. discriminate M. Qed.
